@@ -23,7 +23,7 @@ func init() {
 	})
 	register(&propCfg{
 		id: "C16", worker: "c16", goCmd: "go", race: true, chunk: 8,
-		instrument: []string{"-maps", "-clock", "-tick"},
+		instrument: []string{"-maps", "-clock", "-tick", "-locks"},
 		tiers: map[string]tierCfg{
 			"quick":    {cases: 640, timeout: 10 * time.Minute},
 			"thorough": {cases: 32_000, timeout: 30 * time.Minute},
